@@ -43,18 +43,17 @@ Theorem C06_topo_detect : forall m,
 Proof. intros m. split; [reflexivity|]. split; reflexivity. Qed.
 Print Assumptions C06_topo_detect.
 
-(* The round trip itself:
-     Theorem C06_roundtrip      : wf_file dim m -> decode_impl o (encode dim topo m) = ROk m      (o compatible with topo; check off or m passing it)
-     Theorem C06_spec_roundtrip : wf_file dim m -> decode_spec dim (encode dim topo m) = Some m
-     Theorem C06_reencodings    : for every permitted re-encoding b of m : decode_impl o b = ROk m
-   is NOT proved for all meshes (`_partial`).  Proved: the codec, integer, padding and layout lemmas above (each chunk of the writer
-   is framed as the reader frames it, C18_prefix builds on it), C07_total (the reader cannot fail with UB on it), and the three
-   statements for the concrete meshes below by evaluation inside Coq (a tetrahedron with int / bool / string properties read into
-   a polyhedral and a tetrahedral mesh with the topology check on; a hexahedron read into a hexahedral mesh through
-   check_halfface_ordering; a mixed-valence mesh with valence-0 cells in the variable-valence form).  Missing: the induction
-   over the entity lists that connects read_n_ints with enc_int for every count and width.  On every run the driver evaluates
-   decode_impl (encode m) = m and decode_spec (encode m) = m on every mesh OBSERVED from the real writer (model_rt / spec_rt) and
-   the real reader reads every generated re-encoding to the same mesh (lib/checks_ovmb.py). *)
+(* The round trip itself, for ALL meshes, is proved in Props/Properties_C06_roundtrip.v (IO/Ovmb2*.v):
+     C06_roundtrip      : wf_file dim m -> fits dim m -> accepts o dim topo m -> decode_impl o (encode dim topo m) = ROk m
+     C06_spec_roundtrip : wf_file dim m -> fits dim m -> 1 <= dim -> stopo_ok topo m -> decode_spec dim (encode dim topo m) = Some m
+     C06_reencodings    : every valid `layout` of m (spans, wider integers, variable-valence form, handle offsets, optional
+                          chunks) reads to m with decode_impl and with decode_spec
+   The examples below evaluate the same statements on three concrete meshes inside Coq, independently of those proofs (a
+   tetrahedron with int / bool / string properties read into a polyhedral and a tetrahedral mesh with the topology check on; a
+   hexahedron read into a hexahedral mesh through check_halfface_ordering; a mixed-valence mesh with valence-0 cells in the
+   variable-valence form).  On every run the driver evaluates decode_impl (encode m) = m and decode_spec (encode m) = m on every
+   mesh OBSERVED from the real writer (model_rt / spec_rt) and the real reader reads every generated re-encoding to the same
+   mesh (lib/checks_ovmb.py). *)
 Example C06_roundtrip_tet :
   wf_file 3 ex_tet /\ decode_impl ex_opts (encode 3 1 ex_tet) = ROk ex_tet /\ decode_spec 3 (encode 3 1 ex_tet) = Some ex_tet /\
   decode_impl {| o_mesh := MTet; o_check := true; o_bu := false; o_dim := 3 |} (encode 3 1 ex_tet) = ROk ex_tet.
